@@ -401,10 +401,11 @@ func genStress(t *rapid.T, cfg GenCfg) []Event {
 		ev = append(ev, Event{K: "E"})
 	default:
 		// more bindings in scope than bits in a word (or values in a byte), and overrides of late ones
-		n := []int{65, 66, 70, 130, 256, 257}[rapid.IntRange(0, 5).Draw(t, "stressBindings")]
+		n := []int{65, 66, 70, 130, 256, 257, 255, 300}[rapid.IntRange(0, 7).Draw(t, "stressBindings")]
 		if cfg.NoNS {
 			n = 0
 		}
+		redeclare := n > 0 && rapid.Bool().Draw(t, "stressRedeclare")
 		ev = append(ev, Event{K: "S", Local: name("nsRoot")})
 		if n > 0 {
 			ev[len(ev)-1].Space = "urn:x" // it declares the default namespace itself
@@ -430,6 +431,15 @@ func genStress(t *rapid.T, cfg GenCfg) []Event {
 				ev = append(ev, Event{K: "N", Local: "s3", Value: "urn:over"}, Event{K: "N", Local: "s" + itoa(n-1-k), Value: "urn:late"})
 				if k == 1 {
 					ev = append(ev, Event{K: "N", Local: "", Value: ""})
+				}
+				if k == 2 && redeclare {
+					// the last child declares every inherited prefix again itself (more own
+					// declarations than a byte counts, each one overriding an inherited binding)
+					for i := n - 1; i >= 0; i-- {
+						if i != 3 && i != n-1-k {
+							ev = append(ev, Event{K: "N", Local: "s" + itoa(i), Value: "urn:re" + itoa(i%7)})
+						}
+					}
 				}
 			}
 			ev = append(ev, Event{K: "S", Local: name("nsGrandKid")})
